@@ -306,7 +306,84 @@ def g_twoinst(rng):
                                         {"lhs": "sel", "param": True, "alts": sel_alts}]}
 
 
-SHAPES = [g_twoinst, g_twoinst, g_nullpair, g_atleast, g_atleast, g_updown, g_perm, g_perm, g_count, g_count, g_bounded_ab, g_pick, g_countdown, g_nested]
+def g_nullchain(rng):
+    """chains of symbols that are empty under conditions of the parameter, directly and through deeper symbols
+    (conditional nullability is a fix-point over DNFs of the guards); the start rule uses several values"""
+    k = rng.randint(2, 5)
+    ts = _terms(rng, k + 2)
+    while len(ts) < k + 2:
+        ts.append(ts[len(ts) % 2])
+    bits = [0, 1, 2]
+
+    def atom():
+        b = rng.choice(bits)
+        return fn_k("bit_set" if rng.random() < 0.65 else "bit_clear", b)
+
+    # "implication-rich": most guards are one atom A or A strengthened by another atom, and the chain is straight
+    rich = rng.random() < 0.6
+    base = atom()
+
+    def cond():
+        x = rng.random()
+        if rich:
+            return base if x < 0.4 else (and_(base, atom()) if x < 0.8 else atom())
+        if x < 0.45:
+            return atom()
+        if x < 0.8:
+            return and_(atom(), atom())
+        if x < 0.9:
+            return or_(atom(), and_(atom(), atom()))
+        return cmp_(rng.choice(["ge", "le", "eq"]), [0, 3], rng.randint(0, 7))
+
+    rules = []
+    order = list(range(k))
+    for i in order:
+        alts = []
+        if rng.random() < (0.5 if rich else 0.7) or i == k - 1:
+            alts.append(alt([], cond()))
+        if i < k - 1:
+            nxt = i + 1 if rich else rng.randint(i + 1, k - 1)
+            alts.append(alt([ref(f"s{nxt}", SELF)], cond() if rng.random() < 0.3 else TRUE))
+            if rng.random() < 0.3 and i + 2 <= k - 1:
+                alts.append(alt([ref(f"s{i + 1}", SELF), ref(f"s{rng.randint(i + 1, k - 1)}", fn_k("set_bit", rng.choice(bits)))]))
+        alts.append(alt([ts[i]]))
+        rng.shuffle(alts)
+        rules.append({"lhs": f"s{i}", "param": True, "alts": alts})
+    starts = []
+    for _ in range(rng.randint(1, 3)):
+        j = rng.choice([0, 0, 1]) if k > 1 else 0
+        starts.append(alt([ref(f"s{j}", const(rng.randint(0, 7))), ts[k + rng.randint(0, 1)]]))
+    return {"start": "start", "rules": [{"lhs": "start", "param": False, "alts": starts}] + rules}
+
+
+def nullable_family_member(k, guards, v):
+    """s0 -> s1 -> .. -> s(k-1); s_i may be empty under guards[i] in {None, 'A', 'B', 'AB', 'nA'} (A = bit 0 set,
+    B = bit 1 set); start: s0::v "!".  Whether "!" may come first depends on the conditional nullability of the chain."""
+    pool = [term_item(t) for t in [("lit", "a"), ("lit", "b"), ("lit", "c"), ("lit", "d"), ("lit", "e"), ("lit", "f")]]
+    G = {"A": fn_k("bit_set", 0), "B": fn_k("bit_set", 1), "AB": and_(fn_k("bit_set", 0), fn_k("bit_set", 1)),
+         "nA": fn_k("bit_clear", 0)}
+    rules = [{"lhs": "start", "param": False, "alts": [alt([ref("s0", const(v)), term_item(("lit", "!"))])]}]
+    for i in range(k):
+        alts = []
+        if guards[i] is not None:
+            alts.append(alt([], G[guards[i]]))
+        if i < k - 1:
+            alts.append(alt([ref(f"s{i + 1}", SELF)]))
+        alts.append(alt([pool[i]]))
+        rules.append({"lhs": f"s{i}", "param": True, "alts": alts})
+    return {"start": "start", "rules": rules}
+
+
+def nullable_family(k):
+    import itertools
+    for guards in itertools.product([None, "A", "B", "AB", "nA"], repeat=k):
+        if guards[-1] is None:
+            continue            # the last symbol must use its parameter
+        for v in range(4):
+            yield nullable_family_member(k, guards, v)
+
+
+SHAPES = [g_nullchain, g_nullchain, g_twoinst, g_twoinst, g_nullpair, g_atleast, g_atleast, g_updown, g_perm, g_perm, g_count, g_count, g_bounded_ab, g_pick, g_countdown, g_nested]
 
 
 def rand_grammar(rng):
